@@ -5,7 +5,7 @@ use bytes::Bytes;
 use sip_core::transaction::TsxResponse;
 use sip_core::transport::TargetTransportInfo;
 use sip_core::{Endpoint, LayerKey, Request};
-use sip_types::header::typed::{CSeq, CallID, Contact, FromTo, MaxForwards};
+use sip_types::header::typed::{CSeq, CallID, Contact, FromTo, MaxForwards, Routing};
 use sip_types::header::HeaderError;
 use sip_types::msg::RequestLine;
 use sip_types::uri::{NameAddr, Uri};
@@ -78,16 +78,23 @@ impl ClientDialogBuilder {
         assert_eq!(response.line.code.kind(), CodeKind::Success);
         assert!(response.base_headers.to.tag.is_some());
 
+        // The route set of a dialog created by a UAC is the Record-Route list in reverse order
+        // (RFC 3261 12.1.2)
+        let mut route_set: Vec<Routing> = response.headers.get(Name::RECORD_ROUTE).unwrap_or_default();
+        route_set.reverse();
+
         let dialog = Dialog {
             endpoint: self.endpoint.clone(),
             dialog_layer: self.dialog_layer,
-            local_cseq: self.local_cseq.into(),
+            // `local_cseq` was used by the dialog creating request,
+            // requests created inside the dialog continue with the next number
+            local_cseq: self.local_cseq.wrapping_add(1).into(),
             local_fromto: self.local_fromto.clone(),
             peer_fromto: response.base_headers.to.clone(),
             local_contact: self.local_contact.clone(),
             peer_contact: response.headers.get_named()?,
             call_id: self.call_id.clone(),
-            route_set: response.headers.get(Name::RECORD_ROUTE).unwrap_or_default(),
+            route_set,
             secure: self.secure,
             target_tp_info: Mutex::new(self.target_tp_info.clone()),
         };
